@@ -1213,3 +1213,113 @@ class RoundTrip(Stream):
 
 
 STREAMS.update({"roundtrip": RoundTrip()})
+
+
+# ------------------------------------------------------------------------------- alloc (C20)
+class Alloc(Stream):
+    """the allocation-free API performs no heap allocation, on success and on every error path"""
+    name = "alloc"
+    rule = ("conforming scripts restricted to the allocation-free API (header; question/question_ref/the_question(_ref)/skip; "
+            "marker, header_ref, record_header<InlineName>; typed A/AAAA (also on records of other types: error paths), raw bytes, "
+            "skip, opt_record; seek; counts; ..._at::<A|AAAA>, bytes_at, name_ref_at; NameRef eq/labels; InlineName::try_from) plus a "
+            "few allocating calls as positive controls (record_header<Name>, typed NS/TXT) over generated/mutated/random messages; "
+            "and MessageIterator new/question/questions()/records() with A/AAAA items. A counting global allocator (thread-local "
+            "counter) measures each crate call separately. Non-trivial: >=1 record header read. Distinct by case.")
+
+    FREE = ("header", "seek", "qcount", "rcount", "rcountin", "q", "qref", "theq", "theqref", "skipq", "marker", "href", "hdrI",
+            "skipd", "bytes", "opt", "optorskip", "bytesat", "nrefat", "nreq", "nrlabels")
+
+    def is_free(self, call):
+        op = call.split(".", 1)[1].lstrip("?")
+        p = op.split(":")
+        if p[0] in self.FREE:
+            return True
+        if p[0] in ("data", "dataat"):
+            return p[1] in ("1", "28")
+        if p[0] == "nrname":
+            return p[1] == "I"
+        return False
+
+    def generate(self, rng, tier, pid):
+        n = 3000 if tier == "quick" else 100000
+        out = []
+        for i in range(n):
+            m, ast, L, tag = GM.gen_message(rng)
+            sc = GM.conforming_script(rng, L, ast, 0, 50).split(",")
+            fixed = []
+            for c in sc:
+                op = c.split(".", 1)[1]
+                if op.startswith("hdrH") and rng.random() < 0.85:
+                    c = "0.hdrI"
+                if "data:" in op and rng.random() < 0.85:
+                    c = re.sub(r"data:\d+:", "data:%d:" % rng.choice([1, 28]), c)
+                if "dataat:" in op and rng.random() < 0.85:
+                    c = re.sub(r"dataat:\d+:", "dataat:%d:" % rng.choice([1, 28]), c)
+                if "nrname:H" in op and rng.random() < 0.85:
+                    c = c.replace("nrname:H", "nrname:I")
+                fixed.append(c)
+            out.append("y%d ascript 1 %s %s" % (i, GM.hx(m), ",".join(fixed)))
+            if i % 3 == 0:
+                out.append("z%d aiter %s" % (i, GM.hx(m)))
+        return out
+
+    def run(self, cases, pid, tier):
+        # the model has no allocation counts: compare after stripping the @n suffixes
+        model, specs = run_model_with_spec(cases)
+        impl = C.run_impl(cases)
+        dis, fails, hist, samples = [], [], {}, []
+        nontriv = 0
+        self.free_calls = self.alloc_calls = 0
+        for line in cases:
+            cid = line.split(" ", 1)[0]
+            i = impl.get(cid, "MISSING")
+            if line.split(" ")[1] == "ascript":
+                stripped = ";".join(x.rsplit("@", 1)[0] for x in i.split(";")) if "@" in i else i
+                m = model.get(cid, "MISSING")
+                if m != stripped and not i.startswith(ABNORMAL):
+                    dis.append({"case": line[:300], "model": m[:300], "impl": stripped[:300]})
+            why = self.oracle(line, i, None, pid)
+            if why:
+                fails.append({"stream": self.name, "case": line, "observed": i[:600], "expected": "0 allocations", "why": why})
+            if ";ok:M(" in i or ";ok:HN(" in i or ";ok:HR(" in i or "RS=[" in i:
+                nontriv += 1
+                if len(samples) < 3:
+                    samples.append({"case": line.split(" ", 1)[1][:300], "impl": i[:300]})
+        hist = {"allocation_free_calls_measured": self.free_calls, "allocating_control_calls": self.alloc_calls}
+        return {"evaluations": len(cases), "distinct_nontrivial": nontriv, "rule": self.rule, "samples": samples,
+                "histogram": hist, "disagreements": dis, "failures": fails, "model_impl_agree": len(cases) - len(dis)}
+
+    def oracle(self, line, impl, spec, pid):
+        if impl.startswith(ABNORMAL) or "PANIC" in impl:
+            return "implementation " + impl[:60]
+        if line.split(" ")[1] == "aiter":
+            m = re.match(r"new=(\w+)@(\d+)", impl)
+            if m and m.group(2) != "0":
+                return "MessageIterator::new allocated %s times" % m.group(2)
+            for tag in ("Q", "QS"):
+                mm = re.search(r" %s@(\d+)" % tag, impl)
+                if mm and mm.group(1) != "0":
+                    return "iterator %s allocated %s times" % ("question()" if tag == "Q" else "questions()", mm.group(1))
+            for ty, n in re.findall(r"(\w+)@(\d+),", impl[impl.find("RS=["):]):
+                self.free_calls += 1
+                if ty in ("1", "28") and n != "0":
+                    return "iterator item of type %s allocated %s times" % (ty, n)
+            return None
+        n, msgs, calls = split_calls(line)
+        res = impl.split(";")
+        for c, r in zip(calls, res):
+            if "@" not in r:
+                continue
+            body, cnt = r.rsplit("@", 1)
+            if body in ("skip", "nosuch"):
+                continue
+            if self.is_free(c):
+                self.free_calls += 1
+                if cnt != "0":
+                    return "call %s performed %s heap allocation(s): %s" % (c, cnt, body[:80])
+            else:
+                self.alloc_calls += 1
+        return None
+
+
+STREAMS.update({"alloc": Alloc()})
